@@ -40,3 +40,55 @@ Theorem C14_dispatch : forall (T : Type) (F : fops T) (p : profile) (meth : meth
   end.
 Proof. exact linkage_dispatch. Qed.
 Print Assumptions C14_dispatch.
+
+(* ---- nnchain (what linkage runs for complete, average, weighted, ward) ----
+   Under a strict weak order on the carrier and reducibility of the update
+   formula, on EVERY well-formed input, from any prior state, in both
+   profiles, the counting model performs at most 6 n^2 + 10 n matrix accesses
+   (<= 10 n^2 + 50 n): the stored chain never exceeds the number of live
+   clusters + 2, so the pushes amortise (potential 2 * |live| * |chain|). *)
+Require Import KV.Model.Chain KV.Proofs.ShapeCheck KV.Proofs.ChainIter KV.Proofs.ChainCost KV.Proofs.ChainInstances
+  KV.Proofs.Criteria KV.Proofs.CriteriaRun.
+From Coq Require Import QArith.
+Local Close Scope Q_scope.
+Local Open Scope N_scope.
+
+Theorem C14_nnchain_cost : forall (T : Type) (K : kops T) (p : profile) (meth : method),
+  (forall a, k_ltb K a a = false) ->
+  (forall a b c, k_ltb K a b = true -> k_ltb K b c = true -> k_ltb K a c = true) ->
+  (forall a b c, k_ltb K a b = false -> k_ltb K b c = false -> k_ltb K a c = false) ->
+  (forall va vb md sa sb sx, size_ok meth sa sb sx ->
+     k_ltb K va md = false -> k_ltb K vb md = false ->
+     k_ltb K (k_upd K va vb md sa sb sx) va = false \/ k_ltb K (k_upd K va vb md sa sb sx) vb = false) ->
+  forall s d (m : list T) (n : N) s' d' m' cnt,
+  n < two32 -> wf_shape n (N.of_nat (length m)) ->
+  nnchain_with_c K p meth s d m n = Ok (s', d', m', cnt) ->
+  cnt <= 6 * n * n + 10 * n.
+Proof. exact nnchain_cost. Qed.
+Print Assumptions C14_nnchain_cost.
+
+Theorem C14_nnchain_selection_bound : forall (T : Type) (F : fops T) (p : profile),
+  (forall a, f_ltb F a a = false) ->
+  (forall a b c, f_ltb F a b = true -> f_ltb F b c = true -> f_ltb F a c = true) ->
+  (forall a b c, f_ltb F a b = false -> f_ltb F b c = false -> f_ltb F a c = false) ->
+  forall meth s d (m : list T) (n : N) s' d' m' cnt,
+  meth = Single \/ meth = Complete ->
+  n < two32 -> wf_shape n (N.of_nat (length m)) ->
+  nnchain_with_c (kops_of F meth) p meth s d m n = Ok (s', d', m', cnt) ->
+  cnt <= 10 * n * n + 50 * n.
+Proof.
+  intros T F p H1 H2 H3 meth s d m n s' d' m' cnt Hm Hn Hs H.
+  pose proof (@nnchain_selection_cost T F p H1 H2 H3 meth s d m n s' d' m' cnt Hm Hn Hs H). nia.
+Qed.
+Print Assumptions C14_nnchain_selection_bound.
+
+Theorem C14_nnchain_Q_bound : forall (p : profile) (rt : Q -> Q) (meth : method) s d (m : list Q) (n : N) s' d' m' cnt,
+  meth = Average \/ meth = Weighted \/ meth = Ward ->
+  n < two32 -> wf_shape n (N.of_nat (length m)) ->
+  nnchain_with_c (kops_of (QFr rt) meth) p meth s d m n = Ok (s', d', m', cnt) ->
+  cnt <= 10 * n * n + 50 * n.
+Proof.
+  intros p rt meth s d m n s' d' m' cnt Hm Hn Hs H.
+  pose proof (@nnchain_Q_cost p rt meth s d m n s' d' m' cnt Hm Hn Hs H). nia.
+Qed.
+Print Assumptions C14_nnchain_Q_bound.
